@@ -239,8 +239,10 @@ def _endswith_tests_before(fn, ret):
             a = n.args[0]
             vals = [a] if isinstance(a, ast.Constant) else (a.elts if isinstance(a, ast.Tuple) else [])
             for v in vals:
-                if isinstance(v, ast.Constant) and isinstance(v.value, str) and v.value:
-                    found.add(v.value[-1])
+                # only a one-character suffix test covers "ends in that character"; a longer suffix (e.g. two
+                # backslashes) leaves the single-character case uncovered
+                if isinstance(v, ast.Constant) and isinstance(v.value, str) and len(v.value) == 1:
+                    found.add(v.value)
         if isinstance(n, ast.Compare) and isinstance(n.left, ast.Subscript) and ast.unparse(n.left.slice) == "-1":
             for c in n.comparators:
                 if isinstance(c, ast.Constant) and isinstance(c.value, str):
